@@ -256,7 +256,7 @@ pub fn run(s: &Scen, inp: &Shared, outp: &Shared, p0: u64) -> Outcome {
                     for (id, _) in tiles.iter().skip(1).take(2) {
                         if let Ok((z, x, y)) = pmtiles2::util::zxy(*id) {
                             let t = block_on(pm.get_tile_async(x, y, z))?;
-                            value.extend(t.ok_or_else(|| std::io::Error::new(std::io::ErrorKind::Other, "tile vanished"))?);
+                            value.extend(t.unwrap_or_else(|| b"<no tile>".to_vec()));
                         }
                     }
                 } else {
@@ -268,8 +268,9 @@ pub fn run(s: &Scen, inp: &Shared, outp: &Shared, p0: u64) -> Outcome {
                     // the same tiles looked up by coordinates
                     for (id, _) in tiles.iter().skip(1).take(2) {
                         if let Ok((z, x, y)) = pmtiles2::util::zxy(*id) {
+                            // a lookup that answers "no tile" is an observation, not an error of the scenario
                             let t = pm.get_tile(x, y, z)?;
-                            value.extend(t.ok_or_else(|| std::io::Error::new(std::io::ErrorKind::Other, "tile vanished"))?);
+                            value.extend(t.unwrap_or_else(|| b"<no tile>".to_vec()));
                         }
                     }
                 }
